@@ -239,8 +239,11 @@ def compare_codec(res, reqs, mod, imp, summary):
     """diff model and implementation answers; returns list of disagreements"""
     dis = []
     cls = {c['name']: c for c in summary['classes']}
+    unm = set(c['name'] for c in summary['classes'] if c.get('modelled') is False)
     for r, a, b in zip(reqs, mod, imp):
         res.corr['requests'] += 1
+        if len(r.split()) > 1 and r.split()[1] in unm:
+            continue     # no model of this class (outside the translator's grammar): only the oracles look at it
         if r.startswith('dflt'):
             # model prints constructor defaults from the AST; implementation the real default object and which
             # fields differ between poison patterns
@@ -400,7 +403,12 @@ def finish(res, known_filter):
         lines.append('KNOWN-FINDING: property=%s %s' % (res.pid, k.get('what', k['id'])))
     if unlisted:
         # concrete failing input found
+        unlisted.sort(key=lambda v: 1 if v['kind'] == 'model-vs-implementation' else 0)
         for v in unlisted[:40]:
+            if v['kind'] == 'model-vs-implementation':
+                # an input on which model and implementation differ: the correspondence no longer checks, but this is not
+                # (by itself) an input on which the property fails
+                v['found'] = False
             p = lib.write_replay(res.pid, {'property': res.pid, 'kind': v['kind'], 'what': v['what'], 'replay': v['payload'],
                                            'broken_obligations': [n for n, _ in broken][:20],
                                            'how_to_replay': 'python3 checks/run.py %s --replay <this file>' % res.pid})
@@ -648,7 +656,7 @@ def check_C02(res):
     fails = {}
     for r, a, b, (name, cn, img, mut) in zip(reqs, mod, imp, meta):
         res.corr['requests'] += 1
-        if not same_modulo_indet(a, b, cls[cn]):
+        if cls[cn].get('modelled') is not False and not same_modulo_indet(a, b, cls[cn]):
             if ' halt=oob' in a and b.startswith('crash'):
                 continue
             if ' halt=badalloc' in a and ('badalloc' in b or b.startswith('crash')):
